@@ -1,6 +1,6 @@
 (* C17: plot rows and LTTB. *)
 From Coq Require Import ZArith List Bool.
-From V Require Import Base.Wire Model.Plot.
+From V Require Import Base.F64 Base.Wire Model.Plot.
 Import ListNotations.
 Open Scope Z_scope.
 Open Scope rd_scope.
@@ -107,6 +107,17 @@ Definition check_plot : rd verdict :=
 Fixpoint strictly_incr (prev : Z) (l : list Z) : bool :=
   match l with [] => true | x :: tl => (prev <? x) && strictly_incr x tl end.
 
+(* the same bounds as the code computes them, in binary64 (Base/F64.v): where they differ from the
+   exact rational ones (about one (count, threshold) pair in a thousand) the real code is judged
+   against these *)
+Definition lo_bound_f (count th i : Z) : Z := ftrunc (fmul_int (i + 1) (fdiv_int (count - 2) (th - 2))) + 1.
+Definition bucket_f (count th i : Z) : Z * Z :=
+  if i =? 0 then (1, ftrunc (fadd1 (fdiv_int (count - 2) (th - 2)))) else (lo_bound_f count th (i - 1), lo_bound_f count th i).
+Definition chunk_sizes_f (count th : Z) : list Z :=
+  ftrunc (fadd1 (fdiv_int (count - 2) (th - 2)))
+  :: map (fun i => lo_bound_f count th (i + 1) - lo_bound_f count th i) (map Z.of_nat (seq 0 (Z.to_nat (th - 2))))
+  ++ [count - (th - 1)].
+
 Definition check_lttb : rd verdict :=
   count <- getz ;; th <- getz ;; asked <- getlist getz ;;
   okind <- getz ;; out <- getlist getz ;;        (* 0 points, 1 error, 2 panic *)
@@ -131,8 +142,16 @@ Definition check_lttb : rd verdict :=
     | LPanic => okind =? 2
     end in
   let sizes_ok := list_eqb (chunk_sizes count th) asked in
+  (* with the bounds as computed in binary64: sizes asked for, and every picked point in its bucket *)
+  let float_ok :=
+    (3 <=? th) && (th <? count) && (okind =? 0) && list_eqb (chunk_sizes_f count th) asked &&
+    (Z.of_nat (length out) =? th) &&
+    forallb (fun i => let '(lo, hi) := bucket_f count th i in
+                      let x := nth (Z.to_nat (i + 1)) out (-1) in (lo <=? x) && (x <? hi))
+            (map Z.of_nat (seq 0 (Z.to_nat (th - 2)))) in
   let vdiff := if model_ok && sizes_ok then VOk
-               else match vprop with VOk => VDontCare | _ => VDiff 40 [count; th] end in
+               else if float_ok then VOk
+               else match vprop with VOk => VDiff 41 [count; th] | _ => VDiff 40 [count; th] end in
   ret (combine_verdicts [vprop; vdiff]).
 
 Definition check : rd verdict :=
